@@ -43,6 +43,8 @@ def _concrete_firings(prog, builder, cleaves):
             sin, _ = type_of(res)
         except (NoSemantics, IllTyped, KeyError, AttributeError, TypeError):
             continue
+        if R.outside_carrier(redex) or R.outside_carrier(res) or R.data_outside_carrier((redex, res), conv.leaves):
+            continue
         extra = [k for k in sin if k not in rin]
         if extra:
             bad.append((interp, rule, "result depends on new inputs %s" % extra))
